@@ -28,7 +28,8 @@ REQUIRED_BUCKETS = {"quick": ["mode:0", "mode:>0", "beta:on", "beta:off", "dim:1
                               "P:hollow", "P:python", "P:no_Fq", "pd:P", "pd:radius_effective", "mesh>100",
                               "bigmesh_mode>0_no_F1_branch", "S:hardsphere", "S:hayter_msa", "S:squarewell", "S:stickyhardsphere", "lane:asan",
                               "cutoff>0", "retained_weights_do_not_sum_to_one",
-                              "sequence:mode-changed-on-same-kernel", "contrast-matched:beta-on"]}
+                              "sequence:mode-changed-on-same-kernel", "contrast-matched:beta-on",
+                              "magnetic-P", "magnetic-P:owns-volfraction"]}
 REQUIRED_BUCKETS["thorough"] = REQUIRED_BUCKETS["quick"]
 SF = ["hardsphere", "hayter_msa", "squarewell", "stickyhardsphere"]
 _cache = {}
@@ -175,6 +176,19 @@ def run_case(case, rec):
             rec.bucket("pd:P")
             if meshn > 100:
                 rec.bucket("mesh>100")
+        magnetic = False
+        if dim == "2d" and (k + vi) % 2 == 1 and not sas.is_python(pi) and pi.parameters.nmagnetic > 0:
+            # a magnetised form factor inside the product (the magnetic block follows P's and S's parameters and
+            # the mode parameters in the combined table)
+            slds_m = [p_.name for p_ in pi.parameters.call_parameters if p_.type == "sld" and p_.name in sas.active_names(pi, pp)]
+            if slds_m:
+                sm = slds_m[int(rng.integers(len(slds_m)))]
+                pp[sm + "_M0"] = float(rng.uniform(0.5, 4.0))
+                pp[sm + "_mtheta"], pp[sm + "_mphi"] = float(rng.uniform(-80, 80)), float(rng.uniform(-170, 170))
+                pp.update(up_frac_i=float(rng.uniform(0, 1)), up_frac_f=float(rng.uniform(0, 1)),
+                          up_theta=float(rng.uniform(0, 180)), up_phi=float(rng.uniform(0, 180)))
+                magnetic = True
+                rec.bucket("magnetic-P" + (":owns-volfraction" if p_owns_vf else ""))
         if beta == 1 and (k + vi) % 4 == 0 and not sas.is_python(pi):
             # contrast-matched particle: <F> = <F^2> = 0, the documented combination is exactly the background
             slds_p = [p_.name for p_ in pi.parameters.call_parameters if p_.type == "sld"]
@@ -204,6 +218,10 @@ def run_case(case, rec):
             for suf in ("", "_pd", "_pd_n", "_pd_nsigma", "_pd_type"):
                 if oname + suf in sp:
                     cp[cname + suf] = sp[oname + suf]
+        if magnetic:
+            for kk_, vv_ in pp.items():
+                if kk_.endswith(("_M0", "_mtheta", "_mphi")) or kk_.startswith("up_"):
+                    cp[kk_] = vv_
         if "structure_factor_mode" in extra:
             cp["structure_factor_mode"] = beta
         if "radius_effective_mode" in extra:
